@@ -336,13 +336,14 @@ def _own(ctx, repo) -> None:
 
     checked: set[tuple[int, int]] = set()
     true_sites = 0
+    all_calls = {id(g.node): [c for c in walk_no_nested(g.node) if isinstance(c, ast.Call)] for g in scopes}
     for _round in range(8):
         changed = False
         by_name: dict[str, list[Sink]] = {}
         for s in sinks.values():
             by_name.setdefault(s.name, []).append(s)
         for g in scopes:
-            calls = [c for c in walk_no_nested(g.node) if isinstance(c, ast.Call) and last_attr(c) in by_name]
+            calls = [c for c in all_calls[id(g.node)] if last_attr(c) in by_name]
             if not calls:
                 continue
             for c in calls:
@@ -381,6 +382,11 @@ def _own(ctx, repo) -> None:
                     node = own.df_of(g).cfg.node_of(st).idx
                     classes = own.classify_expr(g, node, arr)
                     pclasses = sorted(x[6:] for x in classes if x.startswith("PARAM:"))
+                    if g.cls is not None and g.positional_params and g.positional_params[0] in ("self", "cls") and \
+                            g.positional_params[0] in pclasses:
+                        # the receiver's own state: not something a caller hands in for consumption
+                        pclasses.remove(g.positional_params[0])
+                        classes = (classes - {f"PARAM:{g.positional_params[0]}"}) | {f"ATTR:{norm_text(arr)[:30]}"}
                     if mode in ("param", "attr"):
                         if (id(c), 0) not in checked:
                             checked.add((id(c), 0))
@@ -397,23 +403,26 @@ def _own(ctx, repo) -> None:
                     checked.add((id(c), 1))
                     true_sites += 1
                     construct = f"{g.qualname}:{s.name}({norm_text(arr)[:30]})"
-                    attr_owned = sorted(x for x in classes if x.startswith("ATTR:"))
-                    if UNKNOWN in classes:
+                    foreign = sorted(x for x in classes if x.split(":")[0] in ("ATTR", "OBJ", "CLOSURE", "READONLY"))
+                    owned = FRESH in classes or ITER in classes or bool(pclasses)
+                    if UNKNOWN in classes and not owned:
                         raise AnalysisError(f"{g.qualname}: ownership of `{norm_text(arr)}` passed to {s.name} with "
                                             "overwrite requested cannot be classified")
-                    if attr_owned:
+                    note = (f" (may-alias over-approximation also lists {', '.join(foreign)})" if foreign and owned else "")
+                    if foreign and not owned:
                         ctx.violation("R-OWN", construct, g.loc(c),
-                                      f"`{norm_text(c)[:80]}` overwrites `{norm_text(arr)}`, which is object state "
-                                      f"({', '.join(attr_owned)}), not a fresh local", key_detail="fresh")
+                                      f"`{norm_text(c)[:80]}` overwrites `{norm_text(arr)}`, which is "
+                                      f"{', '.join(foreign)} — shared state, not a fresh local of {g.name}: with the "
+                                      "FFTW back end the owner's data is replaced by its transform", key_detail="fresh")
                     elif pclasses:
                         for p in pclasses:
                             changed |= add(Sink(g.name, g, None, p, g.cls is not None, s.name))
                         ctx.ok("R-OWN", construct, g.loc(c),
                                f"array is the caller-supplied `{', '.join(pclasses)}`: obligation moves to the callers of "
-                               f"{g.name}", nontrivial=True)
+                               f"{g.name}{note}", nontrivial=True)
                     else:
                         extra = " (elements of an iterator: freshness not decided)" if ITER in classes else ""
-                        ctx.ok("R-OWN", construct, g.loc(c), f"array is {', '.join(sorted(classes))}{extra}")
+                        ctx.ok("R-OWN", construct, g.loc(c), f"array is {', '.join(sorted(classes - set(foreign)))}{extra}{note}")
                     # dead afterwards except through the result
                     live = _read_after(own.df_of(g), node, st, arr)
                     ctx.check(not live, "R-OWN", f"{construct}:dead-after", g.loc(c),
@@ -479,7 +488,7 @@ def _dtype(ctx, repo) -> None:
             ("float64", True): "complex128"}
 
     def run_path(prec: str, cplx: bool):
-        env = {pvar: prec, "complex": cplx}
+        env: dict = {pvar: prec, "complex": cplx}
         stmts = list(f.body)
         result = None
         i = 0
@@ -493,7 +502,13 @@ def _dtype(ctx, repo) -> None:
                     raise AnalysisError(f"{f.qualname}: cannot evaluate `{norm_text(st.test)}`")
                 work = list(st.body if t else st.orelse) + work
             elif isinstance(st, ast.Assign) and isinstance(st.targets[0], ast.Name):
-                d = dotted(st.value)
+                val = st.value
+                while isinstance(val, ast.IfExp):
+                    try:
+                        val = val.body if const_eval(val.test, env) else val.orelse
+                    except NotConst:
+                        raise AnalysisError(f"{f.qualname}: cannot evaluate `{norm_text(val.test)}`")
+                d = dotted(val)
                 if d is None:
                     raise AnalysisError(f"{f.qualname}: unexpected assignment `{norm_text(st)}`")
                 env[st.targets[0].id] = ("dtype", d.split(".")[-1])
